@@ -1,12 +1,490 @@
-/- C06 model — placeholder until the property is built -/
+/-
+  C06 — gradient operators return the mathematical derivative.
+
+  Two parts, both generic over a scalar type `α` carrying `+ - * / neg` and a cast from
+  `Nat` (instantiated by the driver with core `Rat` — exact, printed `num/den` — and with
+  `Float` for the transcendental named functions; by the proofs with any commutative ring).
+
+  `Diff`    the reference: expression trees over the differentiable Klong operations
+            (`+ - * %`, integer powers, negate, `+/`, `*/`, `@` indexing, named unary
+            functions with a supplied derivative), their value `eval`, the symbolic
+            derivative `D`, and `evalDual` = evaluation in the ring of dual numbers
+            (forward-mode differentiation).  `Props/C06.lean` proves
+            `(evalDual e).eps = eval (D e)`.
+
+  `NumGrad` what the anchored code does (klongpy/autograd.py):
+              numeric_grad                     -> `gradStep`, `numGradState`, `numGrad`
+              numeric_jacobian                 -> `jacStep`, `numJacState`, `numJacobian`
+              multi_grad_of_fn (numeric branch,
+                single_param_fn / call_fn_with_tensors) -> `multiGradState`, `multiGrad`
+              multi_jacobian_of_fn (numeric)   -> `multiJacobian`
+            The function differentiated is an arbitrary `f`; every call of `f` is logged
+            (`probes`) so that the theorems can speak about what each probe perturbed.
+            Spec: `centralDiff f eps x idx`.
+-/
 import Klong.Model.Wire
 namespace Klong.C06
+open Klong.Wire
+
+/-! ## Diff: expressions, value, symbolic derivative, dual numbers -/
+
+/-- expression trees over the differentiable operations. `var i` is component `i` of the
+    (flattened) point; `fn k ord a` is the `ord`-th derivative of the named unary
+    function number `k`, applied to `a` (so `fn k 0 a` is the function itself). -/
+inductive Expr (α : Type) where
+  | const (c : α)
+  | var (i : Nat)
+  | add (a b : Expr α)
+  | sub (a b : Expr α)
+  | mul (a b : Expr α)
+  | div (a b : Expr α)
+  | neg (a : Expr α)
+  | pow (a : Expr α) (n : Nat)
+  | sum (es : List (Expr α))
+  | prod (es : List (Expr α))
+  | idx (es : List (Expr α)) (i : Nat)
+  | fn (k : Nat) (ord : Nat) (a : Expr α)
+
+section Generic
+variable {α : Type} [Add α] [Sub α] [Mul α] [Div α] [Neg α] [NatCast α]
+
+/-- `a^n` by repeated multiplication -/
+def npow (a : α) : Nat → α
+  | 0 => ((1 : Nat) : α)
+  | n + 1 => npow a n * a
+
+/-- named unary functions: `F k ord` is the `ord`-th derivative of function `k` -/
+abbrev FnEnv (α : Type) := Nat → Nat → α → α
+
+mutual
+/-- value of an expression at the point `p` -/
+def eval (F : FnEnv α) (p : List α) : Expr α → α
+  | .const c => c
+  | .var i => p.getD i ((0 : Nat) : α)
+  | .add a b => eval F p a + eval F p b
+  | .sub a b => eval F p a - eval F p b
+  | .mul a b => eval F p a * eval F p b
+  | .div a b => eval F p a / eval F p b
+  | .neg a => - eval F p a
+  | .pow a n => npow (eval F p a) n
+  | .sum es => evalSum F p es
+  | .prod es => evalProd F p es
+  | .idx es i => evalIdx F p es i
+  | .fn k ord a => F k ord (eval F p a)
+def evalSum (F : FnEnv α) (p : List α) : List (Expr α) → α
+  | [] => ((0 : Nat) : α)
+  | e :: es => eval F p e + evalSum F p es
+def evalProd (F : FnEnv α) (p : List α) : List (Expr α) → α
+  | [] => ((1 : Nat) : α)
+  | e :: es => eval F p e * evalProd F p es
+def evalIdx (F : FnEnv α) (p : List α) : List (Expr α) → Nat → α
+  | [], _ => ((0 : Nat) : α)
+  | e :: _, 0 => eval F p e
+  | _ :: es, i + 1 => evalIdx F p es i
+end
+
+mutual
+/-- symbolic partial derivative with respect to `var v`: the textbook rules -/
+def D (v : Nat) : Expr α → Expr α
+  | .const _ => .const ((0 : Nat) : α)
+  | .var i => if i = v then .const ((1 : Nat) : α) else .const ((0 : Nat) : α)
+  | .add a b => .add (D v a) (D v b)
+  | .sub a b => .sub (D v a) (D v b)
+  | .mul a b => .add (.mul (D v a) b) (.mul a (D v b))
+  | .div a b => .div (.sub (.mul (D v a) b) (.mul a (D v b))) (.mul b b)
+  | .neg a => .neg (D v a)
+  | .pow _ 0 => .const ((0 : Nat) : α)
+  | .pow a (n + 1) => .mul (.mul (.const ((n + 1 : Nat) : α)) (.pow a n)) (D v a)
+  | .sum es => .sum (DList v es)
+  | .prod es => DProd v es
+  | .idx es i => .idx (DList v es) i
+  | .fn k ord a => .mul (.fn k (ord + 1) a) (D v a)
+def DList (v : Nat) : List (Expr α) → List (Expr α)
+  | [] => []
+  | e :: es => D v e :: DList v es
+/-- general product rule: `(e * Π es)' = e' * Π es + e * (Π es)'` -/
+def DProd (v : Nat) : List (Expr α) → Expr α
+  | [] => .const ((0 : Nat) : α)
+  | e :: es => .add (.mul (D v e) (.prod es)) (.mul e (DProd v es))
+end
+
+/-- dual numbers `val + eps·ε`, `ε² = 0` -/
+structure Dual (α : Type) where
+  val : α
+  eps : α
+deriving Repr
+
+namespace Dual
+def ofConst (c : α) : Dual α := ⟨c, ((0 : Nat) : α)⟩
+def add (x y : Dual α) : Dual α := ⟨x.val + y.val, x.eps + y.eps⟩
+def sub (x y : Dual α) : Dual α := ⟨x.val - y.val, x.eps - y.eps⟩
+def mul (x y : Dual α) : Dual α := ⟨x.val * y.val, x.eps * y.val + x.val * y.eps⟩
+def div (x y : Dual α) : Dual α :=
+  ⟨x.val / y.val, (x.eps * y.val - x.val * y.eps) / (y.val * y.val)⟩
+def neg (x : Dual α) : Dual α := ⟨- x.val, - x.eps⟩
+/-- power by repeated dual multiplication (no power rule built in) -/
+def npow (x : Dual α) : Nat → Dual α
+  | 0 => ofConst ((1 : Nat) : α)
+  | n + 1 => mul (npow x n) x
+end Dual
+
+mutual
+/-- forward-mode evaluation: the expression evaluated over dual numbers, the point
+    seeded with `ε` in component `v` -/
+def evalDual (F : FnEnv α) (p : List α) (v : Nat) : Expr α → Dual α
+  | .const c => Dual.ofConst c
+  | .var i => ⟨p.getD i ((0 : Nat) : α), if i = v then ((1 : Nat) : α) else ((0 : Nat) : α)⟩
+  | .add a b => Dual.add (evalDual F p v a) (evalDual F p v b)
+  | .sub a b => Dual.sub (evalDual F p v a) (evalDual F p v b)
+  | .mul a b => Dual.mul (evalDual F p v a) (evalDual F p v b)
+  | .div a b => Dual.div (evalDual F p v a) (evalDual F p v b)
+  | .neg a => Dual.neg (evalDual F p v a)
+  | .pow a n => Dual.npow (evalDual F p v a) n
+  | .sum es => dualSum F p v es
+  | .prod es => dualProd F p v es
+  | .idx es i => dualIdx F p v es i
+  | .fn k ord a =>
+    let d := evalDual F p v a
+    ⟨F k ord d.val, F k (ord + 1) d.val * d.eps⟩
+def dualSum (F : FnEnv α) (p : List α) (v : Nat) : List (Expr α) → Dual α
+  | [] => Dual.ofConst ((0 : Nat) : α)
+  | e :: es => Dual.add (evalDual F p v e) (dualSum F p v es)
+def dualProd (F : FnEnv α) (p : List α) (v : Nat) : List (Expr α) → Dual α
+  | [] => Dual.ofConst ((1 : Nat) : α)
+  | e :: es => Dual.mul (evalDual F p v e) (dualProd F p v es)
+def dualIdx (F : FnEnv α) (p : List α) (v : Nat) : List (Expr α) → Nat → Dual α
+  | [], _ => Dual.ofConst ((0 : Nat) : α)
+  | e :: _, 0 => evalDual F p v e
+  | _ :: es, i + 1 => dualIdx F p v es i
+end
+
+/-- the gradient oracle: `∂e/∂x_v` for every component of a point of dimension `n` -/
+def gradient (F : FnEnv α) (p : List α) (e : Expr α) : List α :=
+  (List.range p.length).map fun v => (evalDual F p v e).eps
+
+/-- the Jacobian oracle: row `i` is the gradient of output `i` -/
+def jacobian (F : FnEnv α) (p : List α) (es : List (Expr α)) : List (List α) :=
+  es.map (gradient F p)
+
+/-! ## NumGrad: the loops of klongpy/autograd.py -/
+
+/-- the central difference the property speaks of:
+    `(f(x + eps·e_idx) − f(x − eps·e_idx)) / (2·eps)` -/
+def centralDiff (f : List α → α) (eps : α) (x : List α) (idx : Nat) : α :=
+  let orig := x.getD idx ((0 : Nat) : α)
+  (f (x.set idx (orig + eps)) - f (x.set idx (orig - eps))) / (((2 : Nat) : α) * eps)
+
+/-- state of `numeric_grad`'s loop: the working array `x` (mutated in place and restored),
+    the result `grad`, and the arguments `func` has been called with (`x.copy()`) -/
+structure GState (α : Type) where
+  x : List α
+  grad : List α
+  probes : List (List α)
+
+/-- body of `while not it.finished` for the (row-major flat) multi-index `idx`:
+      orig = float(x[idx]); x[idx] = orig + eps; f_pos = func(x.copy())
+      x[idx] = orig - eps; f_neg = func(x.copy())
+      grad[idx] = (f_pos - f_neg) / (2 * eps); x[idx] = orig                     -/
+def gradStep (f : List α → α) (eps : α) (s : GState α) (idx : Nat) : GState α :=
+  let orig := s.x.getD idx ((0 : Nat) : α)
+  let x1 := s.x.set idx (orig + eps)
+  let fpos := f x1
+  let x2 := x1.set idx (orig - eps)
+  let fneg := f x2
+  { x := x2.set idx orig
+    grad := s.grad.set idx ((fpos - fneg) / (((2 : Nat) : α) * eps))
+    probes := s.probes ++ [x1, x2] }
+
+/-- `numeric_grad(func, x, backend, eps)`: `grad = zeros_like(x)`, then every multi-index
+    in `np.nditer` order (row-major for the C-contiguous arrays `np.asarray` yields) -/
+def numGradState (f : List α → α) (eps : α) (x : List α) : GState α :=
+  (List.range x.length).foldl (gradStep f eps)
+    { x := x, grad := List.replicate x.length ((0 : Nat) : α), probes := [] }
+
+def numGrad (f : List α → α) (eps : α) (x : List α) : List α := (numGradState f eps x).grad
+
+/-- elementwise `(f_plus - f_minus) / (2 * eps)` -/
+def colDiff (eps : α) (fp fm : List α) : List α :=
+  List.zipWith (fun a b => (a - b) / (((2 : Nat) : α) * eps)) fp fm
+
+/-- `jacobian[:, j] = col` on an `m × n` matrix stored as a list of rows -/
+def setCol (J : List (List α)) (j : Nat) (col : List α) : List (List α) :=
+  List.zipWith (fun row c => row.set j c) J col
+
+structure JState (α : Type) where
+  jac : List (List α)
+  probes : List (List α)
+
+/-- body of `for j in range(n)` of `numeric_jacobian`: fresh copies `x_plus`, `x_minus` -/
+def jacStep (g : List α → List α) (eps : α) (x : List α) (s : JState α) (j : Nat) : JState α :=
+  let xp := x.set j (x.getD j ((0 : Nat) : α) + eps)
+  let xm := x.set j (x.getD j ((0 : Nat) : α) - eps)
+  { jac := setCol s.jac j (colDiff eps (g xp) (g xm)), probes := s.probes ++ [xp, xm] }
+
+/-- `numeric_jacobian(func, x, backend, eps)`: `f0 = func(x)` fixes `m`; `zeros((m, n))` -/
+def numJacState (g : List α → List α) (eps : α) (x : List α) : JState α :=
+  let m := (g x).length
+  (List.range x.length).foldl (jacStep g eps x)
+    { jac := List.replicate m (List.replicate x.length ((0 : Nat) : α)), probes := [x] }
+
+def numJacobian (g : List α → List α) (eps : α) (x : List α) : List (List α) :=
+  (numJacState g eps x).jac
+
+/-- `single_param_fn(v, idx=i)` of `multi_grad_of_fn`: `vals = list(param_values);
+    vals[idx] = v; call_fn_with_tensors(vals)` — every symbol is rebound to `vals` for the
+    call and restored afterwards, so the loss sees exactly `vals` -/
+def singleParamFn (f : List (List α) → α) (params : List (List α)) (i : Nat) (v : List α) : α :=
+  f (params.set i v)
+
+structure MState (α : Type) where
+  grads : List (List α)
+  probes : List (List (List α))     -- the parameter bindings the loss was evaluated under
+
+/-- numeric branch of `multi_grad_of_fn`: one `numeric_grad` per parameter -/
+def multiGradState (f : List (List α) → α) (eps : α) (params : List (List α)) : MState α :=
+  (List.range params.length).foldl
+    (fun s i =>
+      let g := numGradState (singleParamFn f params i) eps (params.getD i [])
+      { grads := s.grads ++ [g.grad], probes := s.probes ++ g.probes.map (fun v => params.set i v) })
+    { grads := [], probes := [] }
+
+def multiGrad (f : List (List α) → α) (eps : α) (params : List (List α)) : List (List α) :=
+  (multiGradState f eps params).grads
+
+/-- numeric branch of `multi_jacobian_of_fn`: `single_param_fn` sets one symbol, calls,
+    restores it; the other symbols keep their values -/
+def multiJacobian (g : List (List α) → List α) (eps : α) (params : List (List α)) :
+    List (List (List α)) :=
+  (List.range params.length).map fun i =>
+    numJacobian (fun v => g (params.set i v)) eps (params.getD i [])
+
+end Generic
+
+/-! ## driver: exact rationals and floats -/
+
+instance : NatCast Float := ⟨Float.ofNat⟩
+
+def fact : Nat → Nat
+  | 0 => 1
+  | n + 1 => (n + 1) * fact n
+
+def fnNames : List String := ["sq", "cube", "recip", "sin", "cos", "exp", "log", "sqrt", "tanh"]
+
+/-- exact named functions: `sq`, `cube`, `recip` with all their derivatives -/
+def ratFn : FnEnv Rat := fun k ord x =>
+  match k, ord with
+  | 0, 0 => x * x
+  | 0, 1 => 2 * x
+  | 0, 2 => 2
+  | 0, _ => 0
+  | 1, 0 => x * x * x
+  | 1, 1 => 3 * x * x
+  | 1, 2 => 6 * x
+  | 1, 3 => 6
+  | 1, _ => 0
+  | 2, n => (if n % 2 = 0 then 1 else -1) * (fact n : Rat) / npow x (n + 1)
+  | _, _ => 0
+
+def nan : Float := 0.0 / 0.0
+
+def floatFn : FnEnv Float := fun k ord x =>
+  match k, ord with
+  | 0, 0 => x * x
+  | 0, 1 => 2 * x
+  | 0, 2 => 2
+  | 0, _ => 0
+  | 1, 0 => x * x * x
+  | 1, 1 => 3 * x * x
+  | 1, 2 => 6 * x
+  | 1, 3 => 6
+  | 1, _ => 0
+  | 2, n => (if n % 2 = 0 then 1 else -1) * Float.ofNat (fact n) / npow x (n + 1)
+  | 3, n => match n % 4 with
+    | 0 => Float.sin x | 1 => Float.cos x | 2 => - Float.sin x | _ => - Float.cos x
+  | 4, n => match n % 4 with
+    | 0 => Float.cos x | 1 => - Float.sin x | 2 => - Float.cos x | _ => Float.sin x
+  | 5, _ => Float.exp x
+  | 6, 0 => Float.log x
+  | 6, n + 1 => (if n % 2 = 0 then 1 else -1) * Float.ofNat (fact n) / npow x (n + 1)
+  | 7, 0 => Float.sqrt x
+  | 7, 1 => 1 / (2 * Float.sqrt x)
+  | 8, 0 => Float.tanh x
+  | 8, 1 => 1 - Float.tanh x * Float.tanh x
+  | _, _ => nan
+
+def parseRat (s : String) : Option (Int × Nat) :=
+  match s.splitOn "/" with
+  | [n, d] =>
+    match n.toInt?, d.toNat? with
+    | some n, some d => if d = 0 then none else some (n, d)
+    | _, _ => none
+  | [n] => n.toInt?.map fun n => (n, 1)
+  | _ => none
+
+def fnIndex (name : String) : Option Nat :=
+  let rec go : List String → Nat → Option Nat
+    | [], _ => none
+    | s :: rest, i => if s = name then some i else go rest (i + 1)
+  go fnNames 0
+
+section Parse
+variable {α : Type} (mk : Int → Nat → α)
+
+mutual
+/-- prefix token stream: `c:n/d  v:i  + - * /  n  p:k  S:k  P:k  I:k:i  f:name:ord` -/
+def parseE : Nat → List String → Option (Expr α × List String)
+  | 0, _ => none
+  | _, [] => none
+  | fuel + 1, t :: rest =>
+    match t.splitOn ":" with
+    | ["c", r] => (parseRat r).map fun q => (.const (mk q.1 q.2), rest)
+    | ["v", i] => i.toNat?.map fun i => (.var i, rest)
+    | ["+"] => (parseN fuel 2 rest).bind fun
+        | ([a, b], r) => some (.add a b, r)
+        | _ => none
+    | ["-"] => (parseN fuel 2 rest).bind fun
+        | ([a, b], r) => some (.sub a b, r)
+        | _ => none
+    | ["*"] => (parseN fuel 2 rest).bind fun
+        | ([a, b], r) => some (.mul a b, r)
+        | _ => none
+    | ["/"] => (parseN fuel 2 rest).bind fun
+        | ([a, b], r) => some (.div a b, r)
+        | _ => none
+    | ["n"] => (parseE fuel rest).map fun (a, r) => (.neg a, r)
+    | ["p", k] =>
+      match k.toNat? with
+      | some k => (parseE fuel rest).map fun (a, r) => (.pow a k, r)
+      | none => none
+    | ["S", k] =>
+      match k.toNat? with
+      | some k => (parseN fuel k rest).map fun (es, r) => (.sum es, r)
+      | none => none
+    | ["P", k] =>
+      match k.toNat? with
+      | some k => (parseN fuel k rest).map fun (es, r) => (.prod es, r)
+      | none => none
+    | ["I", k, i] =>
+      match k.toNat?, i.toNat? with
+      | some k, some i => (parseN fuel k rest).map fun (es, r) => (.idx es i, r)
+      | _, _ => none
+    | ["f", name, ord] =>
+      match fnIndex name, ord.toNat? with
+      | some k, some ord => (parseE fuel rest).map fun (a, r) => (.fn k ord a, r)
+      | _, _ => none
+    | _ => none
+def parseN : Nat → Nat → List String → Option (List (Expr α) × List String)
+  | 0, _, _ => none
+  | _, 0, ts => some ([], ts)
+  | fuel + 1, k + 1, ts =>
+    match parseE fuel ts with
+    | some (e, r) => (parseN fuel k r).map fun (es, r') => (e :: es, r')
+    | none => none
+end
+
+/-- a whole expression: every token consumed -/
+def parseExpr (s : String) : Option (Expr α) :=
+  let ts := splitOnChar s ','
+  match parseE mk (2 * ts.length + 2) ts with
+  | some (e, []) => some e
+  | _ => none
+
+def parseExprs (s : String) : Option (List (Expr α)) :=
+  (splitOnChar s ';').mapM (parseExpr mk)
+end Parse
+
+def mkRatC (n : Int) (d : Nat) : Rat := mkRat n d
+def mkFloatC (n : Int) (d : Nat) : Float := Float.ofInt n / Float.ofNat d
+
+def showRat (q : Rat) : String := s!"{q.num}/{q.den}"
+def showRats (qs : List Rat) : String := ",".intercalate (qs.map showRat)
+def showRows (rows : List (List Rat)) : String := ";".intercalate (rows.map showRats)
+
+def parseRats (s : String) : Option (List Rat) :=
+  (splitOnChar s ',').mapM fun t => (parseRat t).map fun q => mkRat q.1 q.2
+
+/-- `r,r;r;r,r,r` — a list of parameter vectors -/
+def parseBlocks (s : String) : Option (List (List Rat)) :=
+  (splitOnChar s ';').mapM parseRats
+
+def hexNat (s : String) : Option Nat :=
+  s.toList.foldlM (fun acc c => (hexDigit c).map fun d => 16 * acc + d) 0
+
+def parseFloats (s : String) : Option (List Float) :=
+  (splitOnChar s ',').mapM fun t =>
+    if t.length = 16 then (hexNat t).map fun n => Float.ofBits n.toUInt64 else none
+
+def hex16 (n : UInt64) : String :=
+  let digits := (List.range 16).map fun i => hexChar ((n.toNat >>> (4 * (15 - i))) % 16)
+  String.ofList digits
+
+def showFloats (xs : List Float) : String := ",".intercalate (xs.map fun x => hex16 x.toBits)
+
+/-- flatten parameter blocks into one point; `var` numbers run through the blocks in order -/
+def flatten (ps : List (List Rat)) : List Rat := ps.flatten
 
 structure State where
   unit : Unit := ()
 
 def init : State := {}
 
-def handle (s : State) (_ws : List String) : State × String := (s, "bad-op")
+/-- requests
+      grad      e=<expr> p=<rats>                 exact gradient by dual numbers (+ value)
+      gradsym   e=<expr> p=<rats>                 the same through the symbolic derivative `D`
+      jac       es=<expr;expr..> p=<rats>         exact Jacobian (row i = output i)
+      gradf     e=<expr> p=<float bits>           the same in `Float` (transcendental functions)
+      numgrad   e=<expr> p=<rats> eps=<rat>       the `numeric_grad` loop, exactly: result, probes, final x
+      numjac    es=<..>  p=<rats> eps=<rat>       the `numeric_jacobian` loop: result, probes
+      multigrad e=<expr> params=<r,r;r;..> eps=.. the `multi_grad_of_fn` numeric branch            -/
+def handle (s : State) (ws : List String) : State × String :=
+  match ws with
+  | "grad" :: rest =>
+    let fs := fields rest
+    match parseExpr mkRatC (fieldD fs "e"), parseRats (fieldD fs "p") with
+    | some e, some p =>
+      (s, s!"ok val={showRat (eval ratFn p e)} grad={showRats (gradient ratFn p e)}")
+    | _, _ => (s, "bad-op")
+  | "gradsym" :: rest =>
+    let fs := fields rest
+    match parseExpr mkRatC (fieldD fs "e"), parseRats (fieldD fs "p") with
+    | some e, some p =>
+      let g := (List.range p.length).map fun v => eval ratFn p (D v e)
+      (s, s!"ok val={showRat (eval ratFn p e)} grad={showRats g}")
+    | _, _ => (s, "bad-op")
+  | "jac" :: rest =>
+    let fs := fields rest
+    match parseExprs mkRatC (fieldD fs "es"), parseRats (fieldD fs "p") with
+    | some es, some p =>
+      (s, s!"ok val={showRats (es.map (eval ratFn p))} jac={showRows (jacobian ratFn p es)}")
+    | _, _ => (s, "bad-op")
+  | "gradf" :: rest =>
+    let fs := fields rest
+    match parseExpr mkFloatC (fieldD fs "e"), parseFloats (fieldD fs "p") with
+    | some e, some p =>
+      (s, s!"ok val={showFloats [eval floatFn p e]} grad={showFloats (gradient floatFn p e)}")
+    | _, _ => (s, "bad-op")
+  | "numgrad" :: rest =>
+    let fs := fields rest
+    match parseExpr mkRatC (fieldD fs "e"), parseRats (fieldD fs "p"), parseRat (fieldD fs "eps") with
+    | some e, some p, some q =>
+      let st := numGradState (fun y => eval ratFn y e) (mkRat q.1 q.2) p
+      (s, s!"ok grad={showRats st.grad} probes={showRows st.probes} x={showRats st.x}")
+    | _, _, _ => (s, "bad-op")
+  | "numjac" :: rest =>
+    let fs := fields rest
+    match parseExprs mkRatC (fieldD fs "es"), parseRats (fieldD fs "p"), parseRat (fieldD fs "eps") with
+    | some es, some p, some q =>
+      let st := numJacState (fun y => es.map (eval ratFn y)) (mkRat q.1 q.2) p
+      (s, s!"ok jac={showRows st.jac} probes={showRows st.probes}")
+    | _, _, _ => (s, "bad-op")
+  | "multigrad" :: rest =>
+    let fs := fields rest
+    match parseExpr mkRatC (fieldD fs "e"), parseBlocks (fieldD fs "params"), parseRat (fieldD fs "eps") with
+    | some e, some ps, some q =>
+      let st := multiGradState (fun bs => eval ratFn (flatten bs) e) (mkRat q.1 q.2) ps
+      let probes := "|".intercalate (st.probes.map showRows)
+      (s, s!"ok grads={showRows st.grads} probes={probes}")
+    | _, _, _ => (s, "bad-op")
+  | _ => (s, "bad-op")
 
 end Klong.C06
